@@ -1,0 +1,95 @@
+//go:build verif
+
+package app
+
+import (
+	"context"
+	"io"
+	"sync"
+	"time"
+
+	"github.com/yandex/mysync/internal/app/resetup"
+	"github.com/yandex/mysync/internal/config"
+	"github.com/yandex/mysync/internal/dcs"
+	"github.com/yandex/mysync/internal/log"
+	"github.com/yandex/mysync/internal/mysql"
+	"github.com/yandex/mysync/internal/util"
+)
+
+// NewVerifApp mirrors NewApp + connectDCS + newDBCluster without syslog, lock file and signals.
+func NewVerifApp(cfg *config.Config, logger *log.Logger, closer io.Closer, d dcs.DCS) (*App, error) {
+	ext, err := mysql.NewExternalReplication(cfg.ExternalReplicationType, logger, cfg.ExternalReplicationChannel)
+	if err != nil {
+		return nil, err
+	}
+	app := &App{
+		state:               stateFirstRun,
+		config:              cfg,
+		logger:              logger,
+		loggerCloser:        closer,
+		t:                   NewTimings(),
+		replRepairState:     make(map[string]*ReplicationRepairState),
+		slaveReadPositions:  make(map[string]string),
+		externalReplication: ext,
+		switchHelper:        mysql.NewSwitchHelper(cfg),
+		offlineModeFilter:   NewOfflineModeFilter(cfg, logger),
+	}
+	app.lagResetupper = resetup.NewLagResetupper(logger, app, cfg.ResetupHostLag.Seconds())
+	app.dcs = d
+	app.appDCS = NewAppDCS(d, cfg, logger)
+	if err := app.newDBCluster(); err != nil {
+		return nil, err
+	}
+	return app, nil
+}
+
+// VerifRun mirrors Run() with an external context; onIter is called around every state handler.
+func (app *App) VerifRun(ctx context.Context, onIter func(state, next string, begin bool)) {
+	var wg sync.WaitGroup
+	loops := []func(context.Context){app.healthChecker, app.recoveryChecker, app.replicationLagChecker, app.stateFileHandler}
+	if app.config.ExternalReplicationType != util.Disabled {
+		loops = append(loops, app.externalCAFileChecker)
+	}
+	if app.config.ReplMon {
+		loops = append(loops, app.replMonWriter)
+	}
+	for _, f := range loops {
+		wg.Add(1)
+		go func() { defer wg.Done(); f(ctx) }()
+	}
+	handlers := map[appState](func() appState){
+		stateFirstRun:    app.stateFirstRun,
+		stateManager:     app.stateManager,
+		stateCandidate:   app.stateCandidate,
+		stateLost:        app.stateLost,
+		stateMaintenance: app.stateMaintenance,
+	}
+	ticker := time.NewTicker(app.config.TickInterval)
+	defer ticker.Stop()
+loop:
+	for {
+		select {
+		case <-ticker.C:
+			for {
+				h := handlers[app.state]
+				if onIter != nil {
+					onIter(string(app.state), "", true)
+				}
+				next := h()
+				if onIter != nil {
+					onIter(string(app.state), string(next), false)
+				}
+				if next == app.state {
+					break
+				}
+				app.state = next
+				time.Sleep(time.Millisecond) // stands for the execution time of a handler; keeps a state flip-flop from freezing a virtual clock
+			}
+		case <-ctx.Done():
+			break loop
+		}
+	}
+	wg.Wait()
+	app.cluster.VerifCloseAll()
+	app.dcs.Close()
+}
